@@ -6,7 +6,7 @@ import z3
 from . import smt
 from .values import (
     Unsupported, Sym, Ref, TupleV, FuncV, LambdaV, BuiltinV, ClassV, ModuleV, SuperV, Raised, ExcSym,
-    PyList, SeqV, PyDict, Obj, ArrState, DataView, Idx, StackState, Slice, is_concrete, num_term, isint_of,
+    PyList, SeqV, PyDict, Obj, ArrState, DataView, MaskView, Idx, StackState, Slice, is_concrete, num_term, isint_of,
     is_num, zand, zor, znot,
 )
 
@@ -332,7 +332,7 @@ class ExprMixin(object):
                     yield r
 
     def is_arr(self, st, v):
-        return (isinstance(v, Ref) and isinstance(st.get(v), ArrState)) or isinstance(v, DataView)
+        return (isinstance(v, Ref) and isinstance(st.get(v), ArrState)) or isinstance(v, (DataView, MaskView))
 
     def binop(self, st, op, a, b, inplace=False):
         opn = type(op).__name__
@@ -407,6 +407,11 @@ class ExprMixin(object):
                     yield st, a
                 else:
                     yield st, st.alloc(PyList(seq=new))
+                return
+        if opn == "Add" and isinstance(a, Ref) and isinstance(st.get(a), PyList) and isinstance(b, Sym) and b.kind == "shapelist":
+            la = st.get(a)
+            if la.items is not None and len(la.items) == 1 and is_num(la.items[0]):
+                yield st, Sym("stackshape", (self.int_term(la.items[0]), b.t))
                 return
         for r in self.binop_dyn(st, opn, a, b, inplace):
             yield r
@@ -532,6 +537,10 @@ class ExprMixin(object):
                     yield st1, r
                 else:
                     yield st1, (r if opn == "Eq" else (not r if isinstance(r, bool) else znot(r)))
+            return
+        if isinstance(a, Sym) and isinstance(b, Sym) and a.kind == b.kind == "version":
+            # A-NUMPY-VERSION: the pinned numpy (1.26) is >= any version the code tests for
+            yield st, opn in ("GtE", "Gt", "NotEq")
             return
         for r in self.compare_dyn(st, opn, a, b):
             yield r
